@@ -36,14 +36,14 @@ class C09(Check):
             'status 0 and agreement with dense weighted lstsq (fitted values, coefficients), polynomial reproduction, '
             'invariance under changes of y at zero-weight points, linearity in y.  Cholesky: random SPD banded matrices '
             '(bandwidth 1-6, n 2-60) and non-PD / non-finite ones.  Ill-posed fits: data gaps wider than the breakpoint '
-            'spacing, empty segments, zero-weight runs, fewer good points than order, <= 2*order breakpoints - the call must '
-            'return a status and finite coefficients, and repeated fitting must terminate.  Non-trivial: well-posed with >= 4 '
+            'spacing (also with isolated points inside), empty segments, zero-weight runs, fewer good points than order, <= 2*order breakpoints - the call must '
+            'return a status and finite coefficients, repeated fitting must terminate, and a final status 0 must be the weighted LS optimum over the unmasked breakpoints.  Non-trivial: well-posed with >= 4 '
             'intervals, or ill-posed reaching maskpoints / the Cholesky fallback; distinct by input hash.')
     ASSUMPTIONS = ['fit() is called with sorted abscissae as its docstring requires',
                    'well-posed problems use quasi-uniform breakpoints (interval widths within a factor 3) and weights within 3 '
                    'decades, so cond(A^T W A) <~ 1e8 and the 1e-7*max|y| tolerance on fitted values has margin; wildly uneven '
                    'knot vectors legitimately trigger the fit\'s min_influence guard (status -1) and are not asserted to give 0']
-    REQUIRED_COUNTERS = ('wellposed_status0', 'maskpoints_entered', 'cholesky_fallback_entered', 'status_minus1', 'status_minus2',
+    REQUIRED_COUNTERS = ('status0_optimality_checked', 'wellposed_status0', 'maskpoints_entered', 'cholesky_fallback_entered', 'status_minus1', 'status_minus2',
                          'spd_factorisations', 'nonpd_signalled', 'nonfinite_signalled', 'zero_weight_invariance_checked')
     CASE_CPU_S = 60
 
@@ -140,7 +140,7 @@ class C09(Check):
                     'b': g.normal(size=n).tolist()}
         # ill-posed fits
         k = rng.randint(2, 5)
-        mode = rng.choice(['gap', 'gap', 'empty_segments', 'zero_run', 'few_points', 'few_bkpts', 'all_zero'])
+        mode = rng.choice(['gap', 'gap', 'gap_isolated', 'gap_isolated', 'empty_segments', 'zero_run', 'few_points', 'few_bkpts', 'all_zero'])
         nbk = rng.randint(2, 25) if mode != 'few_bkpts' else rng.randint(2, 3)
         n = rng.randint(30, 200)
         x = np.sort(g.uniform(0, 10, n))
@@ -152,6 +152,17 @@ class C09(Check):
             if x.size < 6:
                 x = np.sort(g.uniform(0, 10, 30))
             w = w[:x.size]
+        elif mode == 'gap_isolated':
+            # a gap wider than the breakpoint spacing holding one or two isolated points: the normal matrix keeps a positive
+            # diagonal there but is not positive definite (the Cholesky fallback has to locate the column)
+            a = rng.uniform(0.5, 6)
+            width = rng.uniform(1.5, 4.0) * 10.0 / max(nbk - 1, 1)
+            keep = (x < a) | (x > a + width)
+            iso = np.sort(g.uniform(a + 0.1 * width, a + 0.9 * width, rng.randint(1, 2)))
+            x = np.sort(np.concatenate([x[keep], iso]))
+            if x.size < 8:
+                x = np.sort(g.uniform(0, 10, 30))
+            w = np.ones(x.size) * 10 ** rng.uniform(-2, 2)
         elif mode == 'empty_segments':
             x = np.sort(np.concatenate([g.uniform(0, 1, n // 2), g.uniform(9, 10, n - n // 2)]))
         elif mode == 'zero_run':
@@ -288,7 +299,9 @@ class C09(Check):
                 steps = 0
                 prev_good = int(s.mask.sum())
                 while True:
+                    fb_call0 = self.rec.raises.get('scipy.cholesky_banded:LinAlgError', 0)
                     st, yfit = s.fit(x, y, w)
+                    fallback_in_call = self.rec.raises.get('scipy.cholesky_banded:LinAlgError', 0) > fb_call0
                     steps += 1
                     isint = isinstance(st, (int, np.integer)) and not isinstance(st, bool)
                     if not out.expect(isint, 'status', 'status is %r (%s), not an integer code' % (st, type(st).__name__)):
@@ -303,6 +316,27 @@ class C09(Check):
                         out.count('status_minus2')
                     elif st == 0:
                         out.count('illposed_status0')
+                        # status 0 = success: the returned curve must be the weighted LS optimum over the spline space of the
+                        # breakpoints that are still unmasked (chi-square compared with an independent dense minimum-norm solve)
+                        gb = np.asarray(s.breakpoints, dtype='f8')[s.mask]
+                        if len(gb) >= 2 * k and np.all(np.isfinite(yfit)):
+                            A = BR.basis_matrix(gb, k, x, extrapolate=True)
+                            cref, rank, sv = BR.wls(A, y, w)
+                            chi_ref = float(np.sum(w * (y - A @ cref) ** 2))
+                            chi = float(np.sum(w * (y - yfit) ** 2))
+                            scale = float(np.sum(w * y * y)) + 1e-300
+                            cond = float(sv[0] / sv[-1]) if sv[-1] > 0 else np.inf
+                            singular = rank < A.shape[1] or cond ** 2 * 1.1e-16 > 1e-6
+                            # open finding F-B7: the problem is numerically singular but LAPACK's Cholesky goes through (no
+                            # LinAlgError, min_influence not triggered) -> status 0 with huge finite coefficients.  Anything
+                            # else (well-conditioned problem, or the fallback was entered and still status 0) is a violation.
+                            clause = 'singular-status0' if (singular and not fallback_in_call) else 'optimum-after-masking'
+                            out.expect(chi <= chi_ref + 1e-7 * scale, clause,
+                                       'status 0 after %d step(s) but chi-square %.6g is not the minimum %.6g attainable with the '
+                                       'unmasked breakpoints (rank %d of %d, cond %.3g, Cholesky fallback entered: %s)'
+                                       % (steps, chi, chi_ref, rank, A.shape[1], cond, fallback_in_call),
+                                       mode=case['mode'], masked=int((~s.mask).sum()))
+                            out.count('status0_optimality_checked')
                         out.expect(good == prev_good, 'mask', 'status 0 (success) although this call dropped breakpoints (%d -> %d); '
                                    'dropped breakpoints are documented as status -1' % (prev_good, good))
                         out.expect(bool(np.all(np.isfinite(yfit))), 'finite', 'status 0 with non-finite fitted values')
@@ -315,6 +349,11 @@ class C09(Check):
         out.count('cholesky_fallback_entered', self.rec.raises.get('scipy.cholesky_banded:LinAlgError', 0) - fb0)
         out.nontrivial = entered > 0
         out.info.update(mode=case['mode'], steps=steps, final=int(st))
+
+    def classify(self, case, out):
+        if out.fails and all(f['clause'] == 'singular-status0' for f in out.fails):
+            return 'singular_but_cholesky_succeeds'
+        return None
 
     def summarise(self, case):
         c = dict(case)
